@@ -3,7 +3,7 @@
 h=$1; to=${2:-1500}; fs=${FS:-1024}
 play=""; [ -n "$PLAY" ] && play="-Z concrete-playback --concrete-playback=print"
 cd /verif/harness/throttle && cp /repo/Cargo.lock . && \
-( ulimit -v 16000000; CARGO_NET_OFFLINE=true /usr/bin/time -v timeout $to cargo kani --harness scen::$h --exact -Z stubbing -Z unstable-options \
+( ulimit -v 16000000; CARGO_NET_OFFLINE=true /usr/bin/time -v timeout $to cargo kani --harness $h --exact -Z stubbing -Z unstable-options \
   $play --target-dir /verif/.target/throttle \
   --cbmc-args --max-field-sensitivity-array-size $fs ) > /tmp/throttle-$h.log 2>&1
 echo "== $h FS=$fs"
